@@ -5,7 +5,7 @@ import tracking_common as tc
 
 
 def check(ctx) -> int:
-    return tc.run_check(ctx, "C07", ["Proofs/C07.vo"])
+    return tc.run_check(ctx, "C07", ["Proofs/C07.vo", "Proofs/TrackingMetric.vo"])
 
 
 def replay(path: str) -> int:
